@@ -83,6 +83,14 @@ public:
    /// @since  0.2, 10.04.2016
    TypedArgBase* findArg( const ArgumentKey& key) const;
 
+   /// Searches if an argument with exactly this short or long key is defined,
+   /// abbreviations are not taken into account.
+   ///
+   /// @param[in]  key  The short and/or long argument name to check.
+   /// @return  Pointer to the argument handler object if an argument with
+   ///          this key is defined, NULL otherwise.
+   TypedArgBase* findExactArg( const ArgumentKey& key) const;
+
    /// Specifies the line length to use when printing the usage.
    /// Used when this container is used to store te sub-group arguments.
    /// @param[in]  useLen  The new line length to use.<br>
